@@ -144,7 +144,7 @@ Proof.
   destruct ia as [|k [|x [|y ia]]]; try reflexivity. destruct k; try reflexivity. apply IH.
 Qed.
 Lemma np_from_items v : nopanic (from_items v).
-Proof. unfold from_items. destruct v; try reflexivity. apply np_bind; [apply np_from_items_loop|intros; reflexivity]. Qed.
+Proof. unfold from_items. destruct v; try reflexivity. destruct (forallb is_arr _); [|reflexivity]. apply np_bind; [apply np_from_items_loop|intros; reflexivity]. Qed.
 
 Lemma np_call1 f a : nopanic (call1 f a).
 Proof.
@@ -273,7 +273,7 @@ Lemma np_call4 f a b c d : nopanic (call4 f a b c d).
 Proof.
   destruct f; cbn [call4]; first [apply np_find_between | idtac].
   unfold replace_count. repeat (apply np_bind; [apply np_str_arg|intros ? _]).
-  apply np_bind; [apply np_int_arg|intros n _]. reflexivity.
+  apply np_bind; [apply np_int_arg|intros n _]. destruct (n <? 0); reflexivity.
 Qed.
 
 (* ------------------------------------------------------------------ *)
